@@ -1,5 +1,6 @@
 import Resolvo.MDet.Checked
 import Resolvo.MDet.LogSpec
+import Resolvo.MDet.GhostSpec
 /-!
 # C12 — cancellation is honoured promptly and faithfully
 
@@ -105,6 +106,20 @@ theorem history_requests_polled (U : Universe) (fuel : Nat) (ps : List Problem) 
     refine ⟨n2 ++ n1, ?_, callsPolled_append _ _ c2 c1⟩
     simp only [List.foldl_cons]
     rw [h2, h1, List.append_assoc]
+
+/-- the same in terms of the call log itself (the strings compared with the real solver's log): `Ghost` — the call log
+    is the rendering of the structured log — holds for a fresh solver and is maintained by every solve
+    (`MDet.history_ghost`), so the newest entry of the call log of a cancelled solve is `P<k>` with `v = 7000 + k` -/
+theorem cancelled_faithful_log (U : Universe) (P : Problem) (fuel : Nat) (s : S) (hg : Ghost s) (v : Nat)
+    (h : (solveRun U P fuel s).1 = .stop (.cancelled v)) :
+    ∃ k rest, (solveRun U P fuel s).2.log = s!"P{k}" :: rest ∧ v = 7000 + k := by
+  obtain ⟨k, rest, hgl, hv, _⟩ := cancelled_faithful U P fuel s v h
+  have hg' := solveRun_ghost U P fuel s hg
+  unfold Ghost at hg'
+  rw [hgl] at hg'
+  exact ⟨k, (rest ++ s.glog).map gevStr, by rw [hg']; rfl, hv⟩
+
+example : Ghost {} := rfl
 
 /-! Non-vacuity of the `Cancelled` branch: every propagation round started while the signal is up ends `Cancelled`
     with the provider's value (so does every uncached request, `no_*_request_after_signal` above); the evidence file
